@@ -212,6 +212,26 @@ pub fn mirror_scenario(prop: &str, seed: u64, index: u64) -> Option<Scenario> {
     if prop == "C19" && rng.chance(0.15) {
         scn.params.insert("mutate_after_pd".into(), 1.0);
     }
+    // a stateful goal sampler: the goal hands out a short list of goal configurations in turn
+    // (both sides must call sample_goal equally often, in the same places)
+    if prop == "C19" && rng.chance(0.2) {
+        let g = geo_for(&scn.space).ok()?;
+        let t = scn.problems[0].goal.target.clone();
+        let r = scn.problems[0].goal.radius;
+        let mut cyc = vec![t.clone()];
+        for _ in 0..rng.usize_in(1, 3) {
+            let dist = r * rng.range(0.2, 0.8);
+            if let Some(mut c) = gen::point_at(&*g, &mut rng, &t, dist) {
+                if canon_state(&spec, &mut c) && g.d(&t, &c) <= 0.9 * r {
+                    cyc.push(c);
+                }
+            }
+        }
+        if cyc.len() > 1 {
+            scn.problems[0].goal.sampler = GoalSampler::Cycle;
+            scn.problems[0].goal.cycle = cyc;
+        }
+    }
     // a callback whose answer depends on its call history: the k-th validity query (counted over
     // the whole scenario) answers False whatever the state. Both sides must ask the same
     // questions in the same order for the results to agree.
